@@ -19,7 +19,7 @@ From RU Require Proofs.C04_Inventory Proofs.C04_NoPanic Proofs.C04_Parse Proofs.
   Proofs.C04_PathFile Proofs.C04_PathCtx Proofs.C04_SetPath Proofs.C04_SetHost Proofs.C04_Chain Proofs.C04_Rest
   Proofs.C04_Origin Proofs.C04_Uts46_Inner Proofs.C06_Main Proofs.C03_WF Proofs.C03_ReachParts Proofs.C09_Reject
   Proofs.C13_Known Proofs.C15_Main Proofs.C15_Ser Proofs.C15_Parse Proofs.C17_Main Proofs.C17_Decode Proofs.C16_Origin
-  Proofs.Idna_Known Proofs.Idna_WalkEnc Proofs.Idna_WalkDepr Proofs.C19_Pure.
+  Proofs.Idna_Known Proofs.Idna_WalkEnc Proofs.Idna_WalkDepr Proofs.C19_Pure Proofs.C04_CheckInv Proofs.C06_Suffix.
 From RU Require Properties.C03 Properties.C06 Properties.C09 Properties.C13 Properties.C14 Properties.C15 Properties.C19.
 
 Inductive kind :=
@@ -51,7 +51,8 @@ Inductive claim_id :=
 | P_punycode
 | P_pe_table | P_aset
 | P_form | P_form_ser
-| P_data_process | P_data_decode | P_base64 | P_mime.
+| P_data_process | P_data_decode | P_base64 | P_mime
+| P_check_invariants.
 
 Definition claim_eqb_trivial (i : claim_id) : bool := match i with P_trivial => true | _ => false end.
 
@@ -218,6 +219,14 @@ Definition claim (i : claim_id) : Prop :=
   | P_mime =>
       (forall s, usv_list s -> exists r, Mime.parse s = Mime.Ok r)
       /\ (forall m, C19_Pure.usv_mime m -> exists d, Mime.display m = Mime.Ok d)
+  | P_check_invariants =>
+      (* Url::check_invariants (transcription: Proofs/C04_CheckInv.v) on a record with wf_b and host_text_ok: it panics
+         exactly when its structural part passes and the re-parse fails (.expect("Failed to parse myself?")); `other` is
+         the outcome of Url::parse(self.as_str()), whose Ok values are well-formed *)
+      forall hd u other, wf_b u = true -> C06_Suffix.host_text_ok u ->
+        (forall o, other = POk o -> wf_b o = true) ->
+        (C04_CheckInv.check_invariants hd u other = C04_CheckInv.CPanic
+         <-> (has_authority_b u && negb (C04_CheckInv.ip_text_ok hd u) = false /\ forall o, other <> POk o))
   end.
 
 (* ---------------------------------------------------------------- every claim holds *)
@@ -297,6 +306,7 @@ Proof.
     intros W E write base64 w body. exact (C04_NoPanic.data_url_decode_no_panic write base64 w body).
   - intros W E write w body. exact (conj (C04_NoPanic.dwo_no_panic write w body) (C04_NoPanic.dwb_no_panic write w body)).
   - exact C19.C19_total.
+  - exact C04_CheckInv.check_invariants_panic_iff.
 Qed.
 
 (* ---------------------------------------------------------------- the table *)
@@ -315,7 +325,7 @@ Definition table : list row := [
   R "url" "Url::options" KByType P_trivial "-";
   R "url" "Url::as_str" KByType P_trivial "-";
   R "url" "Url::into_string" KByType P_trivial "-";
-  R "url" "Url::check_invariants" KByType P_trivial "-";
+  R "url" "Url::check_invariants" KExact P_check_invariants "C04_check_invariants";
   R "url" "Url::origin" KExact P_origin "C04_origin_panic_iff";
   R "url" "Url::scheme" KTheorem P_accessors "C04_no_panic_accessors";
   R "url" "Url::is_special" KTheorem P_accessors "C04_no_panic_accessors";
@@ -475,7 +485,8 @@ Definition table : list row := [
 ].
 
 (* KByType functions that DO contain a panic macro of their own, looked at by hand:
-   Url::check_invariants - its assert! / assert_eq! are LOCAL macros that return Err(String) (lib.rs), not panics;
+   Url::check_invariants - its assert! / assert_eq! are LOCAL macros that return Err(String) (lib.rs), not panics (the row is
+     KExact since task c04fin2: claim P_check_invariants; the entry is kept, harmless);
    Parser::parse_scheme - debug_assert!(self.serialization.is_empty()): true at its three call sites (a fresh parser) *)
 Definition bytype_exceptions : list string := ["Url::check_invariants"; "Parser::parse_scheme"].
 Local Close Scope string_scope.
@@ -511,6 +522,6 @@ Theorem table_sound : Forall (fun r => claim (r_claim r)) table.
 Proof. apply Forall_forall. intros r _. apply claims_hold. Qed.
 
 Theorem table_counts :
-  length table = 167%nat /\ count_kind KTheorem = 76%nat /\ count_kind KExact = 19%nat /\ count_kind KOutside = 17%nat
-  /\ count_kind KByType = 49%nat /\ count_kind KDocumented = 2%nat /\ count_kind KHarness = 4%nat.
+  length table = 167%nat /\ count_kind KTheorem = 76%nat /\ count_kind KExact = 20%nat /\ count_kind KOutside = 17%nat
+  /\ count_kind KByType = 48%nat /\ count_kind KDocumented = 2%nat /\ count_kind KHarness = 4%nat.
 Proof. vm_compute. repeat split. Qed.
